@@ -25,7 +25,7 @@ ASSUMPTIONS = [
     "order of full_join's output is not asserted; left and right items share no non-key names",
     "every item has all join/group keys; key values are mutually comparable per key",
 ]
-REACH = {"quick": {"op:left_join": 800, "op:full_join": 800, "op:aggregate": 800, "renamed": 1500, "none-key": 1500, "empty-operand": 400, "dup-right": 1500, "long-right": 200}}
+REACH = {"quick": {"op:left_join": 800, "op:full_join": 800, "op:aggregate": 800, "renamed": 1500, "none-key": 1500, "empty-operand": 400, "dup-right": 1500, "long-right": 200, "aggregate-history": 150}}
 
 OPS = ["left_join", "inner_join", "semi_join", "anti_join", "full_join", "aggregate"]
 
@@ -42,7 +42,12 @@ def generate(rng, tier):
         items = [dict({"_tag_": i}, **{k: rng.choice(gp[j]) for j, k in enumerate(keys)}) for i in range(n)]
         for it in items:
             if rng.random() < 0.5: it["v"] = rng.choice([1, 2.5, None])
-        return {"op": op, "items": items, "keys": rng.sample(keys, len(keys))}
+        case = {"op": op, "items": items, "keys": rng.sample(keys, len(keys))}
+        if n >= 2 and rng.random() < 0.3:
+            # the list as it was when first aggregated: same tags, other group-key values
+            case["items0"] = [dict(it, **{k: rng.choice(gp[j]) for j, k in enumerate(keys)}) for it in items]
+            case["history"] = rng.choice(["rekey", "reorder"])
+        return case
     nl, nr = rng.choice([0, 1, 2, 4, 7, 10]), rng.choice([0, 1, 2, 4, 7, 10])
     if rng.random() < 0.15:
         nl, nr = rng.choice([1, 2, 3]), rng.choice([35, 60])      # a right list much longer than the left one
@@ -87,8 +92,29 @@ def execute(case):
         exp = [dict(dict(zip(keys, g)), n=len(groups[g]), tags=groups[g]) for g in order]
         try:
             with capture_stdout():
-                data = di.ListOfDicts(copy.deepcopy(items))
-                out = data.group_by(*keys).aggregate(n=len, tags=lambda g: [i._tag_ for i in g])
+                if case.get("history") and n >= 2:
+                    # same-object history: group, aggregate, edit items in place (length unchanged), aggregate again without re-grouping
+                    data0 = di.ListOfDicts(copy.deepcopy(case["items0"]))
+                    grouped = data0.group_by(*keys)
+                    grouped.aggregate(n=len)
+                    for i, it in enumerate(items):
+                        tgt = list.__getitem__(grouped, i)
+                        for k in keys:
+                            tgt[k] = it[k]
+                    if case["history"] == "reorder":
+                        list.sort(grouped, key=lambda x: -x["_tag_"])
+                        list.sort(items, key=lambda x: -x["_tag_"])
+                        groups = {}
+                        for it in items:
+                            groups.setdefault(tuple(it[k] for k in keys), []).append(it["_tag_"])
+                        order = sorted(groups, key=functools.cmp_to_key(cmp))
+                        exp = [dict(dict(zip(keys, g)), n=len(groups[g]), tags=groups[g]) for g in order]
+                    data = grouped
+                    out = grouped.aggregate(n=len, tags=lambda g: [i._tag_ for i in g])
+                    res.cls("aggregate-history")
+                else:
+                    data = di.ListOfDicts(copy.deepcopy(items))
+                    out = data.group_by(*keys).aggregate(n=len, tags=lambda g: [i._tag_ for i in g])
         except Exception as e:
             res.violate(f"aggregate:raised:{exc_name(e)}:{'empty' if n == 0 else 'plain'}", f"aggregate by {keys} raised {e!r} on {canon.short(items, 700)}")
             return res.dict()
@@ -96,7 +122,7 @@ def execute(case):
         if got != exp:
             what = "wrong-groups-or-order" if [tuple(g.get(k) for k in keys) for g in got] != order else "wrong-summary"
             res.violate(f"aggregate:{what}", f"aggregate by {keys}: got {canon.short(got, 600)} expected {canon.short(exp, 600)}; items {canon.short(items, 600)}")
-        if [dict(x) for x in list.__iter__(data)] != items:
+        if not case.get("history") and [dict(x) for x in list.__iter__(data)] != items:
             res.violate("aggregate:mutated-input", f"items changed: {canon.short(items, 400)}")
         res.count("aggregates-compared")
         return res.dict()
